@@ -1,34 +1,52 @@
 (** C04 - Relative branches land exactly on their targets.
     [lands m k addr dest bs rest]: the bytes [bs] (followed by anything) decode under the ISA
     branch decoder Spec/Branch.v to a branch of kind [k] of exactly the emitted length that
-    transfers control to [dest].  Proved for every address and every target (all of Z) on the
-    domain where gosk's form selection is right; the companion refutation and the known-findings
-    file delimit the rest. *)
-From Coq Require Import List ZArith String Bool.
+    transfers control to [dest].  Proved for every address and every target (all of Z): since the
+    fixes in /repo (rel8 chosen from its displacement; displacement length following the operand
+    size; 66h-prefixed rel32 forms with the prefix counted) EVERY JMP, every one of the sixteen
+    conditional jumps and every CALL lands, in both modes, at every distance below 2 GiB - with the
+    rel16 wrap-around points of 16-bit mode excluded (they land modulo 64 KiB, which this statement
+    does not claim).  What remains wrong about branches is their SIZE in pass 1 (C03 findings), not
+    where they go. *)
+From Coq Require Import List ZArith String Bool Lia.
 From Gosk Require Import Base.Bytes Model.Eval Model.Asm Spec.Branch Generated.Tables Lemmas.BranchLemmas.
 Import ListNotations.
 Local Open Scope Z_scope.
 
-Theorem C04_jmp_short : forall m addr dest rest, let rel := dest - addr in -126 <= rel <= 129 ->
+Theorem C04_jmp_total : forall m addr dest rest, let rel := dest - addr in
+  - 2 ^ 31 + 6 <= rel < 2 ^ 31 -> rel - 2 <> -32768 ->
   lands m BJmp addr dest (gen_jmp m rel) rest.
-Proof. exact jmp_short_lands. Qed.
-Print Assumptions C04_jmp_short.
+Proof. exact jmp_total_lands. Qed.
+Print Assumptions C04_jmp_total.
 
-Theorem C04_jcc_short : forall m opc addr dest rest, In opc jcc_opcodes -> let rel := dest - addr in -126 <= rel <= 129 ->
-  lands m (BJcc (opc - 112)) addr dest (gen_jcc opc rel) rest.
-Proof. exact jcc_short_lands. Qed.
-Print Assumptions C04_jcc_short.
+Theorem C04_jcc_total : forall m opc addr dest rest, In opc jcc_opcodes -> let rel := dest - addr in
+  - 2 ^ 31 + 7 <= rel < 2 ^ 31 -> ~ (-32768 <= rel - 2 <= -32767) ->
+  lands m (BJcc (opc - 112)) addr dest (gen_jcc m opc rel) rest.
+Proof. exact jcc_total_lands. Qed.
+Print Assumptions C04_jcc_total.
 
-Theorem C04_call16 : forall addr dest rest, let rel := dest - addr in -32768 <= rel - 5 <= 32767 -> -32768 <= rel - 3 <= 32767 ->
-  lands M16 BCall addr dest (gen_call rel) rest.
-Proof. exact call16_lands. Qed.
-Print Assumptions C04_call16.
+Theorem C04_call_total : forall m addr dest rest, let rel := dest - addr in - 2 ^ 31 + 6 <= rel < 2 ^ 31 ->
+  lands m BCall addr dest (gen_call m rel) rest.
+Proof. exact call_total_lands. Qed.
+Print Assumptions C04_call_total.
 
-Theorem C04_jmp16_near : forall addr dest rest, let rel := dest - addr in
-  -32768 <= rel - 2 <= 32767 -> ~ (-128 <= rel - 2 <= 127) -> -32768 <= rel - 3 ->
+(* the individual forms *)
+Theorem C04_jmp_short : forall addr dest rest, let rel := dest - addr in -126 <= rel <= 129 ->
   lands M16 BJmp addr dest (gen_jmp M16 rel) rest.
-Proof. exact jmp16_near_lands. Qed.
-Print Assumptions C04_jmp16_near.
+Proof. exact jmp_short_lands. Qed.
+Theorem C04_jcc_short : forall opc addr dest rest, In opc jcc_opcodes -> let rel := dest - addr in -126 <= rel <= 129 ->
+  lands M16 (BJcc (opc - 112)) addr dest (gen_jcc M16 opc rel) rest.
+Proof. exact jcc_short_lands. Qed.
+Theorem C04_jmp16_far : forall addr dest rest, let rel := dest - addr in
+  ~ (-32768 <= rel - 2 <= 32767) -> - 2 ^ 31 <= rel - 6 < 2 ^ 31 ->
+  lands M16 BJmp addr dest (gen_jmp M16 rel) rest.
+Proof. exact jmp16_far_lands. Qed.
+Theorem C04_call16 : forall addr dest rest, let rel := dest - addr in -32768 <= rel - 3 <= 32767 ->
+  lands M16 BCall addr dest (gen_call M16 rel) rest.
+Proof. exact call16_lands. Qed.
+Theorem C04_jmp32 : forall addr dest rest, let rel := dest - addr in - 2 ^ 31 <= rel - 5 < 2 ^ 31 ->
+  lands M32 BJmp addr dest (gen_jmp M32 rel) rest.
+Proof. exact jmp32_lands. Qed.
 
 (** the encoded condition is the one named, for all 30 conditional mnemonics (synonyms included);
     re-proved against the table regenerated from x86gen_jmp.go on every run *)
@@ -37,19 +55,12 @@ Theorem C04_cc_table : forall n, In n jcc_names ->
 Proof. exact cc_table_sound. Qed.
 Print Assumptions C04_cc_table.
 
-(** after fix e07e6de in /repo the rel8 form is chosen exactly when its displacement fits, so [C04_jmp_short]
-    and [C04_jmp16_near] together cover every rel with -32767 <= rel - 2 <= 32767 in 16-bit mode; the former
-    refutation at the backward boundary (targets 127/128 bytes before the jump) is replaced by: *)
-Theorem C04_jmp_backward_boundary : forall addr rest,
-  lands M16 BJmp addr (addr - 128) (gen_jmp M16 (-128)) rest /\ lands M16 BJmp addr (addr - 127) (gen_jmp M16 (-127)) rest.
-Proof. exact jmp_backward_boundary_lands. Qed.
-Print Assumptions C04_jmp_backward_boundary.
-
-(** every 16-bit JMP whose displacement fits 16 bits lands, whichever form is chosen *)
-Theorem C04_jmp16_total : forall addr dest rest, let rel := dest - addr in -32767 <= rel - 2 <= 32767 ->
-  lands M16 BJmp addr dest (gen_jmp M16 rel) rest.
-Proof. exact jmp16_total_lands. Qed.
-Print Assumptions C04_jmp16_total.
-
 Example C04_nonvacuous : lands M16 BJmp 31744 31750 (gen_jmp M16 6) [171].
-Proof. apply (jmp_short_lands M16 31744 31750 [171]). cbn. split; discriminate. Qed.
+Proof. apply (jmp_short_lands 31744 31750 [171]). cbn. lia. Qed.
+(* the two cases that used to go wrong: a target 128 bytes back (rel8 wrapped), and a 16-bit JMP beyond 32 KiB *)
+Example C04_formerly_wrong : lands M16 BJmp 200 72 (gen_jmp M16 (-128)) [] /\ lands M16 BJmp 0 49664 (gen_jmp M16 49664) [].
+Proof.
+  split.
+  - apply (jmp_total_lands M16 200 72 []); cbn; lia.
+  - apply (jmp_total_lands M16 0 49664 []); cbn; lia.
+Qed.
